@@ -261,8 +261,13 @@ def run_case(case, rec):
                 rec.skip("atoms.as-written", "generated table outside PDB limits")
                 return
             per_frame_end = case["i"] % 7 == 3
+            six = case["i"] % 13 == 6
+            if six:
+                # a very large system: serials run past 99999 and are written with six digits (ATOM records only)
+                for k, r in enumerate(rows):
+                    r["rec"], r["serial"] = "ATOM", 99995 + k
             text = emit.emit_pdb(rows, end_after_each_model=per_frame_end)
-            desc = {"i": case["i"], "fmt": fmt, "END-after-every-model": per_frame_end}
+            desc = {"i": case["i"], "fmt": fmt, "END-after-every-model": per_frame_end, "six-digit-serials": six}
         else:
             marker = rng.choice(["?", "."])
             per = {c: rng.choice(["?", "."]) for c in ("pdbx_PDB_ins_code", "label_alt_id", "occupancy", "pdbx_formal_charge", "type_symbol")} if rng.random() < 0.5 else {}
@@ -298,7 +303,7 @@ def run_case(case, rec):
                     r["resseq"], r["icode"] = number[(r["model"], r["chain"], r["resseq"], r["icode"], r["resname"])], None
                 text = emit.emit_cif(rows, null=marker, nulls=per, label_seq="auth", col_order=order, drop_cols=AUTH_COLS)
             else:
-                text = emit.emit_cif(rows, null=marker, nulls=per, label_seq=rng.choice(["index", "auth"]), extra_cats=extra, col_order=order)
+                text = emit.emit_cif(rows, null=marker, nulls=per, label_seq=rng.choice(["index", "auth"]), extra_cats=extra, col_order=order, occ_spellings=case["i"] % 6 == 1)
             desc = {"i": case["i"], "fmt": fmt, "null": marker, "nulls": per, "extra-categories": [c[0] for c in extra or []], "item-order": "shuffled" if order else "usual", "label-identifiers-only": label_only}
         if fmt == "cif" and extra and etype != "polypeptide(L)":
             # every atom belongs to an entity that IS a nucleic-acid polymer (one of the four nucleic-acid types):
